@@ -155,4 +155,76 @@ theorem lzmaCode_internal_isSome (code : InnerArgs → Resp) (strm : Stream) (ac
 
 theorem apply_internal (c : Call) (s : Stream) : (c.apply s).internal = s.internal := rfl
 
+theorem gate_none {strm : Stream} {action : Nat} (h : gate strm action = none) :
+    sanityFail strm action = false ∧ strm.reserved.bad = false := by
+  unfold gate at h
+  cases hs : sanityFail strm action <;> cases hb : strm.reserved.bad <;> simp [hs, hb] at h
+  exact ⟨rfl, rfl⟩
+
+theorem gate_some {strm : Stream} {action : Nat} {e : Nat} (h : gate strm action = some e) :
+    e = LZMA_PROG_ERROR ∨ e = LZMA_OPTIONS_ERROR := by
+  unfold gate at h
+  cases hs : sanityFail strm action <;> cases hb : strm.reserved.bad <;> simp [hs, hb] at h <;> simp [← h]
+
+/-- An early return of the sequence switch is LZMA_STREAM_END in ISEQ_END and LZMA_PROG_ERROR otherwise. -/
+theorem seqSwitch_error {i : Internal} {action availIn e : Nat} (h : seqSwitch i action availIn = .error e) :
+    (e = LZMA_STREAM_END ∧ i.sequence = .end_) ∨ (e = LZMA_PROG_ERROR ∧ i.sequence ≠ .end_ ∧ i.sequence ≠ .run) := by
+  unfold seqSwitch at h
+  cases hs : i.sequence <;> rw [hs] at h <;> simp only [] at h
+  · repeat' split at h
+    all_goals simp at h
+  all_goals first
+    | (split at h
+       · simp at h; simp [← h]
+       · simp at h)
+    | (simp at h; simp [← h])
+
+/-- The three ways a call can go. -/
+theorem lzmaCode_cases (code : InnerArgs → Resp) (strm : Stream) (action : Nat) :
+    (∃ e, gate strm action = some e ∧ lzmaCode code strm action = ⟨strm, e, none⟩)
+    ∨ (∃ i e, gate strm action = none ∧ strm.internal = some i ∧ seqSwitch i action strm.availIn = .error e
+        ∧ lzmaCode code strm action = ⟨strm, e, none⟩)
+    ∨ (∃ a r, (lzmaCode code strm action).called = some (a, r)) := by
+  cases hg : gate strm action with
+  | some e => exact Or.inl ⟨e, rfl, lzmaCode_gate hg⟩
+  | none =>
+    obtain ⟨hs, hb⟩ := gate_none hg
+    obtain ⟨i, hi, -⟩ := sanity_ok hs
+    cases hsw : seqSwitch i action strm.availIn with
+    | error e => exact Or.inr (Or.inl ⟨i, e, rfl, hi, hsw, lzmaCode_early hg hi hsw⟩)
+    | ok sq => exact Or.inr (Or.inr ⟨_, _, by simp [lzmaCode, hs, hb, hi, hsw]; exact ⟨rfl, rfl⟩⟩)
+
+/-- Without reaching the inner coder only three values can be returned. -/
+theorem lzmaCode_not_called_ret {code : InnerArgs → Resp} {strm : Stream} {action : Nat}
+    (h : (lzmaCode code strm action).called = none) :
+    (lzmaCode code strm action).ret = LZMA_PROG_ERROR ∨ (lzmaCode code strm action).ret = LZMA_OPTIONS_ERROR
+      ∨ (lzmaCode code strm action).ret = LZMA_STREAM_END := by
+  rcases lzmaCode_cases code strm action with ⟨e, hg, heq⟩ | ⟨i, e, -, -, hsw, heq⟩ | ⟨a, r, hc⟩
+  · rw [heq]; rcases gate_some hg with rfl | rfl <;> simp
+  · rw [heq]; rcases seqSwitch_error hsw with ⟨rfl, -⟩ | ⟨rfl, -⟩ <;> simp
+  · rw [hc] at h; cases h
+
+/-- After the final switch either the handle is in ISEQ_ERROR or `allow_buf_error` says whether this call idled. -/
+theorem classify_abe (i : Internal) (r : Resp) :
+    (classify i r).1.sequence = .error ∨ (classify i r).1.allowBufError = r.idle := by
+  unfold classify Resp.idle
+  by_cases h0 : r.ret = LZMA_OK
+  · by_cases hz : r.produced = 0 ∧ r.consumed = 0
+    · cases hb : i.allowBufError <;> simp [h0, hz, hb]
+    · simp only [h0, hz, if_true, if_false]
+      right
+      simp
+      intro h1 h2
+      exact hz ⟨h2, h1⟩
+  · simp only [h0, if_false]
+    repeat' split
+    all_goals simp [h0]
+
+theorem classify_hasCode (i : Internal) (r : Resp) :
+    (classify i r).1.hasCode = i.hasCode ∧ (classify i r).1.supported = i.supported
+      ∧ (classify i r).1.availIn = i.availIn := by
+  unfold classify
+  repeat' split
+  all_goals simp
+
 end XzVerif.LzmaCode
